@@ -40,7 +40,10 @@ def slots(ctx):
                 out.append(Slot(lg, gi, rc, None, None, 0, []))
                 continue
             sch = ctx.ex.extract(rc)
-            kind, (n, fails) = oblig.check_rule(lg, sem, sch, lex)
+            try:
+                kind, (n, fails) = oblig.check_rule(lg, sem, sch, lex)
+            except oblig.Free as e:
+                kind, n, fails = oblig.rule_kind(lg, sch, lex), 0, [('illformed', str(e))]
             out.append(Slot(lg, gi, rc, kind, sch, n, fails))
     ctx._slots = out
     return out
@@ -64,7 +67,7 @@ def exactness(ctx, rep, rid_prefix, directions, rids=None):
             continue
         counts[s.kind] += 1
         rid = rids[s.kind]
-        bad = [(d, v) for d, v in s.fails if d in directions]
+        bad = [(d, v) for d, v in s.fails if d in directions or d == 'illformed']
         rep.instance(rid, ok=not bad,
                      sample=dict(logic=s.lg.name, rule=s.rc.name, schema=s.sch.show(), valuations=s.n,
                                  defined_at=ctx.m.floc(s.sch.fn)),
@@ -75,7 +78,8 @@ def exactness(ctx, rep, rid_prefix, directions, rids=None):
                         f'{s.lg.name}:{s.rc.short}',
                         f'rule {s.rc.name} of {s.lg.name} is {d} at valuation {v}: '
                         + ('the node is satisfiable but no extension is' if d == 'unsound'
-                           else 'an extension is satisfiable but the node is not')
+                           else 'an extension is satisfiable but the node is not' if d == 'incomplete'
+                           else 'the schema cannot be given a meaning (an item refers to a value that does not exist there)')
                         + f' [schema {s.sch.show()}]',
                         logic=s.lg.name, rule=s.rc.name, direction=d, valuation=v, schema=s.sch.show())
     return counts
